@@ -40,6 +40,10 @@ type Case struct {
 	// Via: "" = Route(method, path); "routes" = Routes(path, list) with the
 	// candidate's method field holding the comma list.
 	Via string `json:"via,omitempty"`
+	// Cuts (Via ""): the candidate's text is cut at these byte offsets and
+	// declared as nested Group(piece) ... Route(method, last piece): what counts
+	// is the concatenation.
+	Cuts []int `json:"declared_through_groups_cut_at,omitempty"`
 	// After are well-formed registrations made after the candidate (whatever
 	// became of it); AfterReqs are requests built from their instances.
 	After     []rt.Reg `json:"registered_afterwards,omitempty"`
@@ -146,6 +150,9 @@ func checkCase(c Case) evid.Outcome {
 	var ferr interface{}
 	if c.Via == "routes" {
 		ferr = app.RegisterRoutes(len(c.Prefix), c.Final)
+	} else if len(c.Cuts) > 0 {
+		ferr = app.RegisterSplit(len(c.Prefix), c.Final, c.Cuts)
+		out.Classes = append(out.Classes, "declared-through-groups")
 	} else {
 		ferr = app.Register(len(c.Prefix), c.Final)
 	}
@@ -159,6 +166,8 @@ func checkCase(c Case) evid.Outcome {
 		var ferr2 interface{}
 		if c.Via == "routes" {
 			ferr2 = app.RegisterRoutes(len(c.Prefix), c.Final)
+		} else if len(c.Cuts) > 0 {
+			ferr2 = app.RegisterSplit(len(c.Prefix), c.Final, c.Cuts)
 		} else {
 			ferr2 = app.Register(len(c.Prefix), c.Final)
 		}
@@ -805,6 +814,15 @@ func genCase(t *rapid.T) Case {
 		// comma list must be a method, blanks around the items aside
 		c.Via = "routes"
 		c.Final.M = []string{"GET,POST", "GET, POST", " PUT ,DELETE", "GET,", ",GET", "GET,,POST", "GET POST", ",", " ", "GET;POST", "GET,FETCH", "get,post", "*", "GET,*"}[rapid.IntRange(0, 13).Draw(t, "rl")]
+	}
+	if c.Via == "" && rapid.IntRange(0, 3).Draw(t, "groups") == 0 {
+		// the same text declared through nested groups, cut anywhere (also inside
+		// a segment or a bind)
+		k1 := rapid.IntRange(0, len(text)).Draw(t, "cut1")
+		c.Cuts = []int{k1}
+		if rapid.Bool().Draw(t, "twocuts") {
+			c.Cuts = append(c.Cuts, rapid.IntRange(k1, len(text)).Draw(t, "cut2"))
+		}
 	}
 	candMethods, candUnknown, _ := candidateMethods(c)
 	// requests: instances of everything that may be registered
